@@ -311,3 +311,108 @@ Theorem C08_no_mutable_package_state :
   StateInventory.rg_mutated g = false /\ StateInventory.rg_escapes g = false.
 Proof. apply StateInventory.pkg_state_ok_spec. vm_compute. reflexivity. Qed.
 Print Assumptions C08_no_mutable_package_state.
+
+(** ** Caller-owned data handed over through interpreter.WithState: the frames a debugger keeps (round 8).
+    model/StackCells.v: the storage of a stack itself - [stk], a Go slice of item headers - with the only two functions
+    of the package that write it (PushByteArray: append; nipN: reslice / new array / move inside the array).
+    thread.SetState builds the running stacks by pushing the frame's items one by one onto new stacks.  For EVERY memory,
+    frame, item type, growth policy of append and sequence of stack operations of the resumed run: the array of the
+    caller's frame, hence the frame, reads afterwards as before ... *)
+From GoBT Require model.StackCells proofs.StackCellsProofs.
+Theorem C08_resumed_stack_never_writes_the_callers_frame :
+  forall (A : Type) (dflt : A) (grow : nat -> nat) (m : StackCells.mem A) frame ops,
+  (StackCells.s_arr frame < length m)%nat ->
+  let '(m1, s1) := StackCells.set_state_push A dflt grow m (StackCells.view A m frame) in
+  let '(m2, _) := StackCells.run A dflt grow ops m1 s1 in
+  StackCells.arr_of A m2 (StackCells.s_arr frame) = StackCells.arr_of A m (StackCells.s_arr frame) /\
+  StackCells.view A m2 frame = StackCells.view A m frame.
+Proof. exact StackCellsProofs.resumed_stack_never_writes_the_frame. Qed.
+Print Assumptions C08_resumed_stack_never_writes_the_callers_frame.
+
+(** ... more generally no array other than the one the stack is a view of is ever written, and the stack never becomes
+    a view of an array that existed ... *)
+Theorem C08_stack_writes_only_its_own_array :
+  forall (A : Type) (dflt : A) (grow : nat -> nat) ops (m : StackCells.mem A) s a,
+  (a < length m)%nat -> StackCells.s_arr s <> a ->
+  nth a (fst (StackCells.run A dflt grow ops m s)) [] = nth a m [] /\
+  StackCells.s_arr (snd (StackCells.run A dflt grow ops m s)) <> a /\
+  (length m <= length (fst (StackCells.run A dflt grow ops m s)))%nat.
+Proof. exact StackCellsProofs.run_untouched. Qed.
+Print Assumptions C08_stack_writes_only_its_own_array.
+
+(** ... the cell-level functions mean on the items what stack.go says (push at the end; take out the item idx below
+    the top; an invalid index changes nothing), and the resumed stack holds exactly the frame's items *)
+Theorem C08_stack_cells_refine_the_item_lists :
+  forall (A : Type) (dflt : A) (grow : nat -> nat) ops (m : StackCells.mem A) s, StackCells.wf A m s ->
+  StackCells.wf A (fst (StackCells.run A dflt grow ops m s)) (snd (StackCells.run A dflt grow ops m s)) /\
+  StackCells.view A (fst (StackCells.run A dflt grow ops m s)) (snd (StackCells.run A dflt grow ops m s)) =
+  fold_left (StackCells.pure_op A) ops (StackCells.view A m s).
+Proof. exact StackCellsProofs.run_view. Qed.
+Print Assumptions C08_stack_cells_refine_the_item_lists.
+Theorem C08_resumed_stack_holds_the_frames_items :
+  forall (A : Type) (dflt : A) (grow : nat -> nat) (m : StackCells.mem A) items,
+  let '(m1, s1) := StackCells.set_state_push A dflt grow m items in
+  StackCells.wf A m1 s1 /\ StackCells.view A m1 s1 = items.
+Proof. exact StackCellsProofs.set_state_push_view. Qed.
+Print Assumptions C08_resumed_stack_holds_the_frames_items.
+
+(** non-vacuity, and what the statement excludes: the same two operations (an item out of the middle, a push) on a stack
+    that ADOPTED the caller's slice overwrite the frame; on the stack built by pushing they do not *)
+Example C08_adopted_frame_is_overwritten :
+  let m := [[1; 2; 3; 4]]%nat in
+  let frame := StackCells.mkS 0 4 4 in
+  let '(m0, s0) := StackCells.set_state_adopt nat m frame in
+  let '(m1, _) := StackCells.run nat 0%nat (fun c => 2 * c)%nat [StackCells.SNip nat 1; StackCells.SPush nat 9%nat] m0 s0 in
+  StackCells.view nat m1 frame = [1; 2; 4; 9]%nat /\ StackCells.view nat m frame = [1; 2; 3; 4]%nat.
+Proof. exact StackCellsProofs.adopted_frame_is_overwritten. Qed.
+Example C08_pushed_frame_is_kept :
+  let m := [[1; 2; 3; 4]]%nat in
+  let frame := StackCells.mkS 0 4 4 in
+  let '(m0, s0) := StackCells.set_state_push nat 0%nat (fun c => 2 * c)%nat m (StackCells.view nat m frame) in
+  let '(m1, s1) := StackCells.run nat 0%nat (fun c => 2 * c)%nat [StackCells.SNip nat 1; StackCells.SPush nat 9%nat] m0 s0 in
+  StackCells.view nat m1 frame = [1; 2; 3; 4]%nat /\ StackCells.view nat m1 s1 = [1; 2; 4; 9]%nat.
+Proof. exact StackCellsProofs.pushed_frame_is_kept. Qed.
+
+(** the frame itself (tie, translator part): interpreter.State has, in the source as it is NOW, exactly the fields the
+    harness compares before and after a resumed run (c08_owned.go frameLines) *)
+Module C08FrameKey. Import Coq.Strings.String. Definition C08_frame_struct : string := "interpreter.State"%string. End C08FrameKey.
+Import C08FrameKey.
+Theorem C08_frame_inventory :
+  exists f, StateInventory.lookup_gen gen.Structs.structs C08_frame_struct = Some f /\
+            StateInventory.lookup_model C08_frame_struct = Some f /\ length f = 13%nat.
+Proof. eexists. repeat split; vm_compute; reflexivity. Qed.
+Print Assumptions C08_frame_inventory.
+
+(** ** The caller's transaction as a graph of objects (round 8).  model/TxPointers.v: script objects, input structs and
+    output structs in three heaps, a transaction = lists of pointers; Tx.Clone makes new structs and new unlocking /
+    locking script objects but COPIES THE POINTERS of the previous-output scripts held by the inputs.  The path of a
+    signature check of the original digest - clone, script code on the clone's checked input, clone again, the other
+    inputs' scripts replaced by NEW empty objects, sequence numbers / outputs of the clone rewritten (NONE, SINGLE) -
+    writes no object that existed: for every heap, transaction, input index, script code and base hash type the
+    caller's graph reads afterwards as before. *)
+From GoBT Require model.TxPointers proofs.TxPointersProofs.
+Theorem C08_original_digest_keeps_the_callers_transaction_graph : forall h t idx code bt,
+  TxPointers.keeps h (fst (TxPointers.checksig_digest h t idx code bt)).
+Proof. exact TxPointersProofs.checksig_digest_keeps_the_callers_graph. Qed.
+Print Assumptions C08_original_digest_keeps_the_callers_transaction_graph.
+Theorem C08_original_digest_keeps_every_script_object : forall h t idx code bt a,
+  (a < length (TxPointers.h_scripts h))%nat ->
+  nth a (TxPointers.h_scripts (fst (TxPointers.checksig_digest h t idx code bt))) [] = nth a (TxPointers.h_scripts h) [].
+Proof. exact TxPointersProofs.checksig_digest_keeps_every_script. Qed.
+Print Assumptions C08_original_digest_keeps_every_script_object.
+Theorem C08_legacy_preimage_keeps_the_callers_transaction_graph : forall h t idx bt,
+  TxPointers.keeps h (fst (TxPointers.legacy_prepare h t idx bt)).
+Proof. exact TxPointersProofs.legacy_prepare_keeps_the_callers_graph. Qed.
+Print Assumptions C08_legacy_preimage_keeps_the_callers_transaction_graph.
+(** what the statement excludes: emptying the other inputs' scripts THROUGH the pointers the clone holds empties the
+    script object the caller's first input holds; the modelled path leaves it *)
+Example C08_blanking_through_the_pointer_reaches_the_callers_script :
+  let h := TxPointers.mkHeap [[x51; x52]; [x75]; [x51]; [x51]]
+                  [TxPointers.mkPin ([], 0%N) (Some 0%nat) 0%N 500%N (Some 1%nat); TxPointers.mkPin ([], 1%N) (Some 2%nat) 0%N 0%N None]
+                  [TxPointers.mkPout 1%N (Some 3%nat)] in
+  let t := TxPointers.mkPtx [0; 1]%nat [0%nat] in
+  let '(h1, c) := TxPointers.clone h t in
+  nth 1 (TxPointers.h_scripts (TxPointers.blank_through_pointer h1 (TxPointers.pt_ins c) 0 1)) [] = [] /\
+  nth 1 (TxPointers.h_scripts h) [] = [x75] /\
+  nth 1 (TxPointers.h_scripts (fst (TxPointers.checksig_digest h t 1 [xac] TxPointers.BAll))) [] = [x75].
+Proof. exact TxPointersProofs.blanking_through_the_pointer_reaches_the_callers_script. Qed.
